@@ -71,6 +71,12 @@ def run(ck: Checker):
     else:
         ck.ob('C10-1', f, (f.node.lineno, 'source lock pairing'), True, f'{len(acquires)} acquisition site(s), {len(releases)} release site(s): no exit (return, StopIteration, Exception/StopRequested from the source) is reached with `{LOCK}` held')
 
+    # ... and only what is held is released: on every path that reaches a `release()` this activation holds the lock.
+    # A release on the path on which a timed acquire FAILED (the acquire moved inside the try whose finally releases)
+    # releases the lock of the peer that holds it: two forks are inside the source at once, elements are lost, all hang
+    must0 = held_locks(cfg, canon, mode='must')
+    stray = [cfg.nodes[r] for r in sorted(releases) if cfg.nodes[r].kind != 'with_exit' and LOCK not in must0.get(r, frozenset())]
+    ck.ob('C10-1', f, stray[0].ast if stray else (f.node.lineno, 'releases'), not stray, f'every one of the {len(releases)} release site(s) is reached only with `{LOCK}` held by this activation' if not stray else f'L{stray[0].lineno}: `{LOCK}.release()` can be reached on a path on which this fork does not hold the lock (its timed acquire failed, or it was never attempted): it releases the lock a peer is holding — both are then inside the source at the same time (elements are skipped, the forks wedge), or the release raises RuntimeError')
     # ------------------------------------------------------------ C10-2
     must = held_locks(cfg, canon, mode='must')
     # blocking puts under the lock
@@ -242,6 +248,29 @@ def run(ck: Checker):
     ck.ob('C10-7', f, nx[0], not bad, f'all {len(nx)} pulls end on StopIteration only' if not bad else f'L{bad[0].lineno}: `{norm_text(bad[0])}` uses an in-band default: a source element equal to it is taken for exhaustion — the fork that pulled it ends early while its peers skip that element and go on (different streams, and the survivor blocks on the full window)')
     ck.rule('C10-8', 'the pop threshold is the number of forks: tee() binds the constructor parameter that becomes `self.n_forks` to the expression that bounds the fork-creation loop (AGREE)', minimum=1)
     check_fork_count(ck, 'C10-8')
+    ck.rule('C10-10', 'a fork ends by exhaustion only from its own position: an explicit `raise StopIteration` is reached only after the fork\'s own state showed that it has delivered elements (`self._state` tested non-zero); before its first element a fork ends only through the StopIteration of the pull itself (empty source) — a shared "exhausted" flag would end a fork that has not started although the window still holds every element for it (GUARD)', minimum=1)
+    fn10 = ck.repo.func(TEE, 'Fork.__next__')
+    cfg10 = build_cfg(fn10, ck.repo, None)
+    raises10 = [n for n in cfg10.nodes if isinstance(n.ast, ast.Raise) and n.ast.exc is not None and 'StopIteration' in norm_text(n.ast.exc)]
+    started_edges = set()
+    for t in cfg10.nodes:
+        if t.kind != 'test':
+            continue
+        c_, neg_ = t.ast, False
+        while isinstance(c_, ast.UnaryOp) and isinstance(c_.op, ast.Not):
+            c_, neg_ = c_.operand, not neg_
+        if isinstance(c_, ast.Compare) and len(c_.ops) == 1 and dotted(c_.left) == 'self._state' and isinstance(c_.comparators[0], ast.Constant) and c_.comparators[0].value == 0:
+            lab = 'F' if isinstance(c_.ops[0], ast.Eq) else ('T' if isinstance(c_.ops[0], (ast.NotEq, ast.Gt)) else None)
+            if lab and neg_:
+                lab = 'T' if lab == 'F' else 'F'
+            if lab:
+                started_edges.add((t.id, lab))
+    probs10 = []
+    for rn in raises10:
+        p = path_avoiding(cfg10, [cfg10.entry], {rn.id}, edge_ok=lambda e: (e.src, e.kind) not in started_edges)
+        if p is not None:
+            probs10.append(f'L{rn.lineno}: `raise StopIteration` can be reached by a fork that has not delivered anything yet (no test of its own `_state` on the way): a fork that starts late, after a peer has run to the end of a source that fits into the window, yields nothing')
+    ck.ob('C10-10', fn10, raises10[0].ast if raises10 else fn10.node, not probs10, '; '.join(probs10) if probs10 else f'{len(raises10)} explicit raise(s) of StopIteration, each behind the test that this fork has already delivered elements')
     ck.rule('C10-9', 'links are write-once: the `next` of an element box is assigned exactly once, by the prefetch step, to a freshly made box — never cleared or re-pointed (the forks read it without a lock) (WHO)', minimum=1)
     check_links_write_once(ck, 'C10-9')
 
